@@ -69,6 +69,17 @@ static const uint8_t CONmtModeCode[CO_MODE_NUM] = {
 * PROTECTED API FUNCTIONS
 ******************************************************************************/
 
+/* restart a service, which is configured by a communication profile object */
+static void CONmtResetObj(CO_NMT *nmt, uint16_t idx)
+{
+    CO_OBJ *obj;
+
+    obj = CODictFind(&(nmt->Node->Dict), CO_DEV(idx, 0));
+    if (obj != NULL) {
+        (void)COObjInit(obj, nmt->Node);
+    }
+}
+
 void CONmtReset(CO_NMT *nmt, CO_NMT_RESET type)
 {
     CO_OBJ *store;
@@ -112,9 +123,16 @@ void CONmtReset(CO_NMT *nmt, CO_NMT_RESET type)
         COTmrClear(&nmt->Node->Tmr);
         CONmtInit(nmt, nmt->Node);
         COSdoInit(nmt->Node->Sdo, nmt->Node);
+#if USE_CSDO
+        COCSdoInit(nmt->Node->CSdo, nmt->Node);
+#endif
         COIfCanReset(&nmt->Node->If);
         COEmcyReset(&nmt->Node->Emcy, 1);
         COSyncInit(&nmt->Node->Sync, nmt->Node);
+        /* heartbeat producer, heartbeat consumer and sync as configured */
+        CONmtResetObj(nmt, 0x1017);
+        CONmtResetObj(nmt, 0x1016);
+        CONmtResetObj(nmt, 0x1005);
         if (nobootup == 0) {
             CONmtBootup(nmt);
         }
